@@ -297,6 +297,8 @@ def rich_options(rnd):
     if rnd.random() < 0.5:
         sizekw = {'do_all': rnd.randint(1, 3), 'do_all_exceptions': rnd.randint(1, 3),
                   'max_sampled_attempts': rnd.randint(0, 2)}
+        if rnd.random() < 0.3:
+            sizekw['use_sampling'] = False      # (only chooses the DEFAULT thresholds; the explicit small ones still sample)
         kw['size'] = Size(**sizekw)
     if rnd.random() < 0.6:
         kw['seed'] = rnd.randint(0, 5)
